@@ -76,7 +76,8 @@ func handSpecs() []*Spec {
 		// custom directives: ungated argument types (inside the domain) and an argument of a gated enum type (F-13g)
 		{Query: "Query", Directives: []DirSpec{{Name: "tag", Args: []ArgSpec{{"label", "String"}, {"n", "Int!"}}}, {Name: "mark"}},
 			Types: withBuiltins(TypeSpec{Kind: "object", Name: "Query", Fields: []FieldSpec{{Name: "ok", Type: "Boolean"}, {Name: "n", Type: "Int", Req: []string{"a"}}}})},
-		{Query: "Query", Directives: []DirSpec{{Name: "paint", Args: []ArgSpec{{"mode", "Mode"}, {"n", "Int"}}}},
+		{Query: "Query", Directives: []DirSpec{{Name: "paint", Args: []ArgSpec{{"mode", "Mode"}, {"n", "Int"}}, Defaults: []string{"mode", "n"}, Filter: true},
+			{Name: "need", Args: []ArgSpec{{"mode", "Mode!"}, {"s", "String"}}, Filter: true}},
 			Types: withBuiltins(
 				TypeSpec{Kind: "enum", Name: "Mode", Req: []string{"a"}, Values: []string{"X", "Y"}},
 				TypeSpec{Kind: "object", Name: "Query", Fields: []FieldSpec{{Name: "ok", Type: "Boolean"}}})},
